@@ -14,3 +14,4 @@ import OsyrisProofs.C01
 #print axioms Osyris.C01.C01_units_lib_is_reference
 #print axioms Osyris.C01.C01_units_lib_consistent
 #print axioms Osyris.C01.C01_leaf_rule
+#print axioms Osyris.Readers.readAt_aligned
